@@ -161,7 +161,8 @@ def judge_cvrptw(inst, actions, cfg=None):
     # arrival missed by a clear margin.  Only then is "arrival == window end" free of rounding ambiguity; such
     # evaluations are recorded under the name "time_window=" and may be judged with tolerance 0 (the problem lets a
     # service start exactly when the window closes: docstring "start the service within the time window").
-    exact = True
+    exact = not (cfg or {}).get("scaled_units")  # scaled instances (everything divided by max_time): nothing is exact
+    can_be_exact = exact
     for a in actions:
         if not (0 <= a < n):
             continue
@@ -172,12 +173,12 @@ def judge_cvrptw(inst, actions, cfg=None):
         v.add("time_window=" if (leg_exact and slack == 0 and float(tw[a][1]).is_integer()) else "time_window", slack)
         tight.append(slack)
         if a == 0:
-            t, exact = 0.0, True
+            t, exact = 0.0, can_be_exact
         else:
             lo = tw[a][0]
             if leg_exact and float(lo).is_integer() and float(dur[a]).is_integer():
                 exact = True
-            elif lo - arr > 1e-2 and float(lo).is_integer() and float(dur[a]).is_integer():
+            elif can_be_exact and lo - arr > 1e-2 and float(lo).is_integer() and float(dur[a]).is_integer():
                 exact = True  # waits: departs at the (integer) window start whatever the rounding of the arrival
             else:
                 exact = False
@@ -433,7 +434,11 @@ def judge_mdcpdp(inst, actions, cfg):
     """Multi-depot capacitated pickup and delivery.  Nodes: 0..D-1 depots, then n/2 pickups, then n/2 deliveries
     (pickup p pairs with delivery p + n/2).  A route is opened by the first visit of a depot and closed by
     returning to that same depot; the last route's return is implicit (the episode ends on its last node).
-    cfg: dist_mode L1|L2, reward_mode minmax|minsum|lateness, problem_mode open|close."""
+    cfg: dist_mode L1|L2, reward_mode minmax|minsum|lateness, problem_mode open|close, start_mode order|random.
+    inst["start_depot"] (optional) = the depot the reset state names as current (drawn at reset under start_mode
+    "random").  Routes, their depots, capacities and lengths are defined by the executed actions alone - a route belongs
+    to the depot whose visit opened it, whatever the reset state named; the start depot must be one of the instance's
+    depots (0 under start_mode "order": "order" starts with the first depot) and is reported in meta."""
     depots, locs = inst["depot"], inst["locs"]
     D, n = len(depots), len(locs)
     half = n // 2
@@ -505,6 +510,9 @@ def judge_mdcpdp(inst, actions, cfg):
             length[cur_depot] += d(prev, cur_depot)  # implicit final return
     if sorted(opened) != list(range(D)):
         v.viol.append(("depot_not_opened", NEG))
+    sd = inst.get("start_depot")
+    if sd is not None and (not (0 <= sd < D) or (cfg.get("start_mode", "order") == "order" and sd != 0)):
+        v.viol.append(("start_depot_not_a_depot", NEG))
     mode = cfg.get("reward_mode", "lateness")
     if mode == "minmax":
         cost = max(length)
@@ -514,7 +522,8 @@ def judge_mdcpdp(inst, actions, cfg):
         late = sum(arrive.get(x, 0.0) for x in range(D + half, D + n))
         cost = sum(length) * (1 - w) + late * w
     v.obj, v.terms = -cost, sum(length) + sum(arrive.values())
-    v.meta = {"routes": [r for r in routes if r], "lengths": length, "n_routes": len(routes)}
+    v.meta = {"routes": [r for r in routes if r], "lengths": length, "n_routes": len(routes),
+              "start_depot": sd, "first_opened": opened[0] if opened else None}
     return v
 
 
